@@ -44,6 +44,10 @@ SKY = ['sky:1,2', 'sky:10,-20', 'skygal:1,2', 'skyarr:1,2,3;4,5,6', 'skyarr:1;2'
 REGS = ['reg:circleP', 'reg:circleS', 'reg:compP']
 DICTS = ['dict:', 'dict:label=a', 'dict:bad=1', 'dict:label=a,bad=1', 'dict:color=red', 'dict:point=x', 'dict:line=1',
          'rmeta:', 'rmeta:label=x', 'rmeta:line=2,text=t', 'rvis:', 'rvis:color=red', 'rvis:line=1', 'pairs:label=x']
+# values just outside a size / angle domain in the RIGHT type (0, negative, NaN, +-inf as numbers and as
+# angular Quantities) and the nearest wrong types: also offered to every constructor slot by position
+JUST_OUTSIDE = NUMBERS_INVALID + ['q:0:deg', 'q:-1:arcsec', 'q:nan:deg', 'q:inf:deg', 'q:-inf:deg', 'q:5:pix', 'q:4:',
+                                  'q:2:sr', 'i:5', 'q:5:deg', 'None', 'str:abc', 'pix:1,2', 'sky:1,2']
 CATALOGUE = NUMBERS_VALID + NUMBERS_INVALID + NON_NUMBERS + ANGLES_VALID + QUANT_OTHER + PIX + SKY + REGS + DICTS
 
 
@@ -300,6 +304,51 @@ def class_table():
     return {n: live_attrs(getattr(regions, n)) for n in CLASS_NAMES}
 
 
+# ------------------------------------------------------------------ documented domains (FIXED, not read from the code)
+#
+# What each parameter of each class MEANS, written from the class docstrings.  The oracle and the
+# generator use this table, never the descriptor that the code happens to bind to the name, so a
+# parameter bound to the wrong (weaker) descriptor is found as an accepted out-of-domain value.
+# Domain names: position (scalar / 1-D, pixel / sky), positive finite pixel size, positive finite
+# angular size, any scalar angle, region of a kind, text string, metadata.
+_PP, _SP = 'ScalarPixCoord', 'ScalarSkyCoord'
+_PS, _SS, _AN = 'PositiveScalar', 'PositiveScalarAngle', 'ScalarAngle'
+_MV = [['meta', 'RegionMetaDescr'], ['visual', 'RegionVisualDescr']]
+DOCUMENTED = {
+    'CirclePixelRegion': [['center', _PP], ['radius', _PS]] + _MV,
+    'CircleSkyRegion': [['center', _SP], ['radius', _SS]] + _MV,
+    'EllipsePixelRegion': [['center', _PP], ['width', _PS], ['height', _PS], ['angle', _AN]] + _MV,
+    'EllipseSkyRegion': [['center', _SP], ['width', _SS], ['height', _SS], ['angle', _AN]] + _MV,
+    'RectanglePixelRegion': [['center', _PP], ['width', _PS], ['height', _PS], ['angle', _AN]] + _MV,
+    'RectangleSkyRegion': [['center', _SP], ['width', _SS], ['height', _SS], ['angle', _AN]] + _MV,
+    'PolygonPixelRegion': [['vertices', 'OneDPixCoord']] + _MV,
+    'PolygonSkyRegion': [['vertices', 'OneDSkyCoord']] + _MV,
+    'RegularPolygonPixelRegion': [['center', _PP], ['nvertices', _PS], ['radius', _PS], ['angle', _AN],
+                                  ['vertices', 'OneDPixCoord']] + _MV,          # nvertices also >= 3 (cross check)
+    'CircleAnnulusPixelRegion': [['center', _PP], ['inner_radius', _PS], ['outer_radius', _PS]] + _MV,
+    'CircleAnnulusSkyRegion': [['center', _SP], ['inner_radius', _SS], ['outer_radius', _SS]] + _MV,
+    'LinePixelRegion': [['start', _PP], ['end', _PP]] + _MV,
+    'LineSkyRegion': [['start', _SP], ['end', _SP]] + _MV,
+    'PointPixelRegion': [['center', _PP]] + _MV,
+    'PointSkyRegion': [['center', _SP]] + _MV,
+    'TextPixelRegion': [['center', _PP], ['text', 'TextString']] + _MV,
+    'TextSkyRegion': [['center', _SP], ['text', 'TextString']] + _MV,
+    'CompoundPixelRegion': [['region1', 'RegionType:PixelRegion'], ['region2', 'RegionType:PixelRegion'],
+                            ['operator', 'readonly']],
+    'CompoundSkyRegion': [['region1', 'RegionType:SkyRegion'], ['region2', 'RegionType:SkyRegion'],
+                          ['operator', 'readonly']],
+}
+for _shape in ('Ellipse', 'Rectangle'):
+    DOCUMENTED[_shape + 'AnnulusPixelRegion'] = [['center', _PP], ['inner_width', _PS], ['outer_width', _PS],
+                                                 ['inner_height', _PS], ['outer_height', _PS], ['angle', _AN]] + _MV
+    DOCUMENTED[_shape + 'AnnulusSkyRegion'] = [['center', _SP], ['inner_width', _SS], ['outer_width', _SS],
+                                               ['inner_height', _SS], ['outer_height', _SS], ['angle', _AN]] + _MV
+
+
+def doc_table():
+    return DOCUMENTED
+
+
 def snap_fields(cname):
     return [n for n, k in class_table()[cname] if k != 'readonly']
 
@@ -330,7 +379,7 @@ SKY_SIZES = ['q:30:arcsec', 'q:3:arcmin', 'q:7:arcmin', 'q:2:deg', 'q:5:deg', 'q
 
 def ctor_params(cname):
     """constructor parameter names in signature order with their descriptor kind."""
-    tbl = dict((n, k) for n, k in class_table()[cname])
+    tbl = dict((n, k) for n, k in doc_table()[cname])
     import regions
     sig = [p for p in inspect.signature(getattr(regions, cname).__init__).parameters if p != 'self']
     out = []
@@ -484,6 +533,8 @@ class Check(PropertyCheck):
         if [tuple(p) for p in t['visual_key_map']] != list(RegionVisual.key_mapping.items()) or RegionMeta.key_mapping:
             problems.append('key_mapping differs from Impl.Validate.visualKeyMap')
         for n in CLASS_NAMES:
+            if class_table()[n] != DOCUMENTED[n]:
+                problems.append(f'{n}: the code binds {class_table()[n]}, documented domains are {DOCUMENTED[n]}')
             if t['classes'].get(n) != class_table()[n]:
                 problems.append(f'{n}: parameters/descriptors {class_table()[n]} differ from Impl.Validate.attrs {t["classes"].get(n)}')
             import regions
@@ -503,7 +554,7 @@ class Check(PropertyCheck):
     # ---------------------------------------------------------------- generation
     def generate(self, rng, tier):
         cases = []
-        tbl = class_table()
+        tbl = doc_table()
         descrs = ['ScalarPixCoord', 'OneDPixCoord', 'PositiveScalar', 'ScalarSkyCoord', 'OneDSkyCoord', 'ScalarAngle',
                   'PositiveScalarAngle', 'RegionType:PixelRegion', 'RegionType:SkyRegion', 'RegionMetaDescr',
                   'RegionVisualDescr']
@@ -520,6 +571,10 @@ class Check(PropertyCheck):
                     a = valid_args(cn, rng)
                     a[p] = v
                     cases.append({'kind': 'region', 'cls': cn, 'args': a, 'ops': [], 'grp': 'ctor-sweep'})
+                    if v in JUST_OUTSIDE:
+                        # the same call with the arguments passed by position
+                        cases.append({'kind': 'region', 'cls': cn, 'args': dict(a), 'ops': [], 'pos': True,
+                                      'grp': 'ctor-sweep-positional'})
         # assignment sweep: every class x every attribute x every catalogue value, in runs of 20
         for cn in CLASS_NAMES:
             fields = [n for n, k in tbl[cn]]
@@ -653,7 +708,7 @@ class Check(PropertyCheck):
         return {'o': o}
 
     def _rand_region_op(self, rng, cn):
-        tbl = class_table()[cn]
+        tbl = doc_table()[cn]
         f, k = rng.choice(tbl)
         r = rng.random()
         if r < 0.08:
@@ -716,12 +771,15 @@ class Check(PropertyCheck):
         import regions
         V = []
         cn = case['cls']
-        tbl = dict(class_table()[cn])
+        tbl = dict(doc_table()[cn])          # documented domains, independent of the code's descriptors
         cls = getattr(regions, cn)
         Check._assigned = {}
         vals = {p: mkval(n) for p, n in case['args'].items()}
         try:
-            obj = cls(**vals)
+            if case.get('pos'):
+                obj = cls(*[vals[p] for p, _ in ctor_params(cn) if p in vals])
+            else:
+                obj = cls(**vals)
         except Exception as e:
             if exc_name(e) not in ('ValueError', 'TypeError', 'KeyError'):
                 V.append({'kind': 'wrong_exception_class', 'detail': f'{cn}({case["args"]}) raised {type(e).__name__}'})
@@ -1113,7 +1171,7 @@ class Check(PropertyCheck):
     def _args_documented_valid(self, cn, vals):
         """every argument in its documented domain (so the constructor has no reason to refuse)."""
         from regions import PixCoord
-        tbl = dict(class_table()[cn])
+        tbl = dict(doc_table()[cn])
         for p, v in vals.items():
             k = tbl.get(p)
             if p == 'origin':
